@@ -148,7 +148,7 @@ impl Prop for C07 {
         vec!["results are bilinear in entries and vector, so agreement on random rational points is a polynomial-identity test".into()]
     }
     fn stream_len(&self, _tier: Tier) -> usize {
-        400
+        560
     }
     fn random_cases(&self, tier: Tier) -> usize {
         tier.pick(150_000, 3_000_000)
